@@ -35,6 +35,8 @@ def gen_members(ch, n, axis, retain):
     kinds = [ch.choice(['int', 'float', 'str', 'bool', 'int']) for _ in range(shared_n)]
     mixed = ch.chance(0.2)
     names = ch.shuffled(['m%d' % i for i in range(n)]) if ch.chance(0.5) else ['m%d' % i for i in range(n)]  # Bus order need not be sorted order
+    if ch.chance(0.15):
+        names = list(range(n))  # integer Bus labels, including the falsy 0
     out = []
     used = 0
     for m in range(n):
@@ -177,11 +179,15 @@ class QuiltWorld(WorldBase):
         mp = ch.choice([None, 1, 1, 2, n])
         if mp is not None:
             mp = max(1, min(mp, n))
+        members = gen_members(ch, n, axis, retain)
+        backing = ch.weighted([('zip_pickle', 7), ('memory', 2)])
+        if not isinstance(members[0]['name'], str):
+            backing = 'memory'  # stores need string labels (or an encoder); integer labels live in an in-memory Bus
         return {
             'steps': ch.randint(3, 30 if tier == 'thorough' else 22),
             'axis': axis, 'retain': retain, 'deepcopy': ch.chance(0.3), 'mp': mp,
-            'members': gen_members(ch, n, axis, retain),
-            'backing': ch.weighted([('zip_pickle', 7), ('memory', 2)]),
+            'members': members,
+            'backing': backing,
             'faults': ch.chance(0.3), 'alloc_cap': ch.choice([2, 1024]),
         }
 
@@ -206,7 +212,7 @@ class QuiltWorld(WorldBase):
         self.stale = False
         self.path = os.path.join(self.dir, 'q.zip')
         self.contents = {}
-        for tag, specs in (('orig', self.members), ('alt', [alt_member(m) for m in self.members])):
+        for tag, specs in ((('orig', self.members), ('alt', [alt_member(m) for m in self.members])) if cfg['backing'] != 'memory' else ()):
             frames = [self._frame(s) for s in specs]
             tmp = os.path.join(self.dir, tag + '.zip')
             sf.Bus.from_frames(frames).to_zip_pickle(tmp)
@@ -214,7 +220,8 @@ class QuiltWorld(WorldBase):
                 self.contents[tag] = fh.read()
             os.remove(tmp)
         self.cur = 'orig'
-        self._put('orig', BASE_NS)
+        if cfg['backing'] != 'memory':
+            self._put('orig', BASE_NS)
         self.mtime0 = BASE_NS
         if cfg['backing'] == 'memory':
             self.bus = sf.Bus.from_frames([self._frame(s) for s in self.members])
@@ -700,8 +707,8 @@ class QuiltWorld(WorldBase):
 
     def do_q_export(self, q, op):
         sf = self.sf
-        if len(self.quilts) >= 3:
-            return 'Quilt.to_zip_pickle', None, None
+        if len(self.quilts) >= 3 or not isinstance(self.members[0]['name'], str):
+            return 'Quilt.to_zip_pickle', None, None  # stores need string labels or an encoder
         path = os.path.join(self.dir, 'export%d.zip' % len(self.quilts))
 
         def thunk():
